@@ -28,6 +28,18 @@
 (*   are different domains.  ts / it = how many time steps / iterations    *)
 (*   back the leaf was shifted (0 = current).                              *)
 (*                                                                         *)
+(* BUILD ROUTES.  The same tree can be reached in several ways; the keys   *)
+(* must not depend on the way.  t1 of a pair is always built "direct"      *)
+(* (every leaf shifted with one call previous_timestep(steps = ts) /       *)
+(* previous_iteration(steps = it), nothing hashed before).  t2 is built by *)
+(* every route of Routes(t2):                                              *)
+(*   chain   every shifted leaf by single steps, hash() of the operator    *)
+(*           taken (its key cached) before every step                      *)
+(*   treeT   (composite trees whose time-dependent leaves are all at least *)
+(*   treeI   s steps back) the tree Unshift(t2) is built, and s times:     *)
+(*           hash(tree); tree = tree.previous_timestep() / for treeI       *)
+(*           .previous_iteration()                                         *)
+(*                                                                         *)
 (* Property clauses (J_OperatorKeys):                                      *)
 (*   EqualKeys       StructEq(t1, t2)  =>  equal keys and equal hashes     *)
 (*   DistinctKeys    Differ(t1, t2)    =>  different keys                  *)
@@ -94,6 +106,34 @@ Buildable(t) ==
   IF IsLeaf(t) THEN TRUE
   ELSE /\ ~(t.k = "op" /\ t.name = "pow" /\ t.ch[1].k = "sparse" /\ t.ch[2].k \in {"scalar", "dense"})
        /\ \A i \in 1..Len(t.ch) : Buildable(t.ch[i])
+
+(* ------------------------------ build routes ------------------------------ *)
+TimeKinds == {"var", "mdvar", "tdarray"}      \* leaves Operator.previous_timestep pushes back
+IterKinds == {"var", "mdvar"}                 \* leaves Operator.previous_iteration pushes back
+RECURSIVE LeavesOf(_)
+LeavesOf(t) == IF IsLeaf(t) THEN {t} ELSE UNION {LeavesOf(t.ch[i]) : i \in 1..Len(t.ch)}
+MinOf(S) == CHOOSE x \in S : \A y \in S : x <= y
+\* how many steps the whole tree can have been pushed back in time / in iterations (a leaf at a previous
+\* iterate cannot be pushed back in time and vice versa: porepy raises)
+TimeLift(t) == LET L == {l \in LeavesOf(t) : l.k \in TimeKinds} IN
+                 IF L = {} \/ \E l \in L : l.it > 0 THEN 0 ELSE MinOf({l.ts : l \in L})
+IterLift(t) == LET L == {l \in LeavesOf(t) : l.k \in IterKinds} IN
+                 IF L = {} \/ \E l \in L : l.ts > 0 THEN 0 ELSE MinOf({l.it : l \in L})
+RECURSIVE Unshift(_, _, _)
+Unshift(t, r, s) ==
+  IF IsLeaf(t) THEN
+    IF r = "treeT" /\ t.k \in TimeKinds THEN [t EXCEPT !.ts = @ - s]
+    ELSE IF r = "treeI" /\ t.k \in IterKinds THEN [t EXCEPT !.it = @ - s]
+    ELSE t
+  ELSE [t EXCEPT !.ch = [i \in 1..Len(t.ch) |-> Unshift(t.ch[i], r, s)]]
+Shifted(t) == \E l \in LeavesOf(t) : l.ts > 0 \/ l.it > 0
+\* a route is <<name, steps, tree the route starts from>>
+RouteRec(r, s, base) == [r |-> r, s |-> s, base |-> base]
+Routes(t) ==
+  IF ~Shifted(t) THEN {RouteRec("direct", 0, t)}
+  ELSE {RouteRec("chain", 0, t)}
+       \cup (IF ~IsLeaf(t) /\ TimeLift(t) > 0 THEN {RouteRec("treeT", TimeLift(t), Unshift(t, "treeT", TimeLift(t)))} ELSE {})
+       \cup (IF ~IsLeaf(t) /\ IterLift(t) > 0 THEN {RouteRec("treeI", IterLift(t), Unshift(t, "treeI", IterLift(t)))} ELSE {})
 
 (* ------------------------------- mutations -------------------------------- *)
 \* NGrids = <<number of subdomains, interfaces, boundary grids>> of the catalogue (subdomains first, then interfaces,
@@ -178,6 +218,12 @@ KeyModel(t, NGrids) ==
     \* repr of a Projection: name suffix "transpose", domain size, number of range indices, number of domain indices
     [] t.k = "plist"    -> << <<"plist", [i \in 1..Len(t.ch) |->
                                  <<t.ch[i].flag, IF t.ch[i].flag THEN t.ch[i].n ELSE t.ch[i].m, Len(t.ch[i].a)>>]>> >>
+
+\* the tree whose contents the key of a tree built by route (r, s) shows: copies of inner nodes made by
+\* Operator.previous_timestep / previous_iteration keep the cached key of the tree they were copied from
+\* (TreeShiftKeepsKey), so the key of a composite tree hashed before it was pushed back is that of the unshifted tree
+KeyShows(t, r, s, TreeShiftKeepsKey) ==
+  IF TreeShiftKeepsKey /\ r \in {"treeT", "treeI"} THEN Unshift(t, r, s) ELSE t
 
 (* ------------------------ packed form (JSON traffic) ----------------------- *)
 RECURSIVE Pack(_)
